@@ -294,12 +294,20 @@ def checkpoints(ex, speculative=False):
     n_del = n_res = n_copy = 0
     npoll = 0
     deleted_at_poll = {}
+    expect_ckpt = {}     # trial -> why its next job must find a checkpoint
+    had_ckpt = set()
     for e in ex.log:
         k = e[0]
         if k == "poll":
             npoll = e[1]
+        if k == "emit" and not e[5]:
+            had_ckpt.add(e[1])   # the job writes a checkpoint with every regular report
         if k == "schedule":
             state[e[1]] = "running"
+            why = expect_ckpt.pop(e[1], None)
+            if why and ex.backend.spec.checkpointing and not e[6]:
+                v.append((f"checkpoint:missing-when-job-starts:{why[0]}", f"the job of trial {e[1]} (run {e[2]}) found no checkpoint although "
+                                                                          f"{why[1]}, which had not been deleted"))
         elif k == "pause":
             state[e[1]] = "paused"
         elif k == "stop":
@@ -338,9 +346,13 @@ def checkpoints(ex, speculative=False):
                 v.append(("checkpoint:declared-removable-trial-resumed", f"trial {t} was declared never-to-be-resumed, its checkpoint removed, then it was resumed"))
             elif deleted and not speculative:
                 v.append(("checkpoint:resume-after-delete", f"trial {t} resumed after its checkpoint had been deleted"))
+            elif not deleted and t in had_ckpt and t not in deleted_at_poll:
+                expect_ckpt[t] = ("resume", "it is resumed from its own checkpoint")
         elif k == "copy":
             src, tgt, has, deleted = e[1], e[2], e[3], e[4]
             n_copy += 1
+            if has and not deleted:
+                expect_ckpt[tgt] = ("warm-start", f"it was started from the checkpoint of trial {src}")
             if deleted:
                 when = "deleted-in-the-same-poll" if deleted_at_poll.get(src) == npoll else "deleted-in-an-earlier-poll"
                 v.append((f"checkpoint:copy-after-delete:src-{state.get(src)}:{when}",
@@ -401,11 +413,21 @@ def termination(ex, cfg):
     killed_by_stop_all = []
     in_stop_all = False
     alive = set()
+    own_min, own_max = {}, {}   # metric thresholds are read on the values handed to the loop, not on the tuner's own statistics
+
+    def own(snap_):
+        return None if snap_ is None else dict(snap_, min=dict(own_min), max=dict(own_max))
     for e in log:
         k = e[0]
+        if k == "fetch":
+            for _t, res_ in e[2]:
+                for name_, val_ in res_.items():
+                    if isinstance(val_, (int, float)) and not isinstance(val_, bool) and val_ == val_:
+                        own_min[name_] = min(own_min.get(name_, val_), val_)
+                        own_max[name_] = max(own_max.get(name_, val_), val_)
         if k == "loop_start":
             loops = e[1]
-            snap0 = e[2] if len(e) > 2 else None
+            snap0 = own(e[2] if len(e) > 2 else None)
             if first_hold is None and snap0 is not None and crit_holds(stop, snap0, max_failures):
                 # the criterion already held when the previous iteration ended (even if that iteration never
                 # reached its end-of-loop callbacks)
@@ -416,7 +438,7 @@ def termination(ex, cfg):
             if first_hold is not None and wait and not alive:
                 pass
         elif k == "loop_end":
-            snap = e[2]
+            snap = own(e[2])
             if snap is not None and first_hold is None and crit_holds(stop, snap, max_failures):
                 first_hold = e[1]
         elif k == "schedule":
